@@ -1,6 +1,6 @@
 (* Property C20 — malformed input data are rejected, and type coercion is lossless. *)
 From Coq Require Import ZArith QArith Qcanon Bool String List.
-From GettsimModel Require Import Num Val Validation.
+From GettsimModel Require Import Num Val Validation Groupings CoupleSpec.
 Import ListNotations.
 Open Scope Z_scope.
 
@@ -44,3 +44,15 @@ Theorem C20_unchecked_int_to_float_refuted :
   /\ num_of (RFloat (xz (2 ^ 53))) <> num_of (RInt (2 ^ 53 + 1)).
 Proof. exact int_to_float_unchecked_refuted. Qed.
 Print Assumptions C20_unchecked_int_to_float_refuted.
+
+(* spouses with contradictory joint-assessment flags: the tax-unit builder rejects the table exactly
+   when two spouses' flags differ — for tables of ANY size and wherever the two rows stand
+   (unique non-negative person ids, symmetric spouse pointers) *)
+Theorem C20_contradictory_joint_assessment_rejected : forall ps, couple_wf ehep ps ->
+  ((exists ids, sn_id ps = Ok ids) <-> flags_agree_b ps = true).
+Proof. exact sn_id_accepts_iff. Qed.
+Print Assumptions C20_contradictory_joint_assessment_rejected.
+
+Theorem C20_contradictory_flags_error : forall ps, couple_wf ehep ps -> ~ flags_agree ps -> exists e, sn_id ps = Err e.
+Proof. exact sn_id_rejects. Qed.
+Print Assumptions C20_contradictory_flags_error.
